@@ -12,8 +12,9 @@ State of one function object, as far as `compile` / `_update` / the trampoline a
 * `table`    — the methods registered so far in the current `self.map`.
 
 `_compile` is: (0) lock ancestors, (1) `self.map = MultiTypeMap()`, (2) argument analysis — raises for conflicting
-argument names, (3) swap the generated code into `self.dispatch`, (4..) `register_signature` per method — raises
-for a method that cannot be adapted (misuse of `call_next`, unreadable source, a user hook that raises),
+argument names, (3..) `register_signature` per method — raises for a method that cannot be adapted (misuse of
+`call_next`, unreadable source, a user hook that raises), then the generated code is swapped into `self.dispatch`
+(since the `fix:` for finding D16a the entry point goes into service only after the table is filled),
 (last) `self._compiled = True`.  `compile` wraps it: on any exception `_compiled = False` and the trampoline's
 code is put back (the `fix:` for finding D15).
 
@@ -63,13 +64,13 @@ def compileRaw (cfg : Cfg) (s : S) (f : Option Nat) : S × Bool × Option Nat :=
   if strikes f then (s, false, none) else
   let f := dec f
   if !cfg.namesOK s.defns then (s, false, f) else
-  if strikes f then (s, false, none) else
-  let f := dec f
-  let s := { s with entry := some s.defns }
   match fill cfg [] s.defns f with
   | (t, false, f) => ({ s with table := t }, false, f)
   | (t, true, f) =>
     let s := { s with table := t }
+    if strikes f then (s, false, none) else
+    let f := dec f
+    let s := { s with entry := some s.defns }
     if strikes f then (s, false, none) else
     ({ s with compiled := true }, true, dec f)
 
@@ -119,12 +120,14 @@ def unregister (cfg : Cfg) (s : S) (d : Nat) (f : Option Nat) : S × Out :=
   if strikes f then (s, .error) else
   update cfg s (dec f)
 
-/-- calling `self.dispatch`: the trampoline compiles unconditionally, the generated code looks the arguments
-    up in the current table -/
+/-- calling `self.dispatch`: the trampoline (`first_entry`: `ov.ensure_compiled(); return ov.dispatch(...)`) builds
+    unless the function is flagged built — in which case it would call itself for ever (`RecursionError`); the
+    generated code looks the arguments up in the current table -/
 def dispatchCall (cfg : Cfg) (s : S) (f : Option Nat) : S × Out :=
   match s.entry with
   | some e => (s, .served e s.table)
   | none =>
+    if s.compiled then (s, .error) else
     match compile cfg s f with
     | (s', true, _) => (s', .served (s'.entry.getD []) s'.table)
     | (s', false, _) => (s', .error)
